@@ -58,6 +58,15 @@ def model_to_dict(model, leaves, ctx=None):
                     out[name] = float(val.as_fraction()) if z3.is_rational_value(val) else str(val)
                 else:
                     out[name] = str(val)
+            elif kind == 'grid' and ctx is not None:
+                from .grid import sel2
+                h = ctx.heap[v.oid]
+                n = max(0, min(model.eval(h.fields['len'].t, model_completion=True).as_long(), 6))
+                for i in range(n):
+                    m = max(0, min(model.eval(z3.Select(h.fields['rowlen'], i), model_completion=True).as_long(), 6))
+                    for j in range(m):
+                        val = model.eval(sel2(h.fields['cell'], i, j), model_completion=True)
+                        out['%s[%d][%d]' % (name, i, j)] = z3str(val) if z3.is_string_value(val) else ' '
             elif kind == 'symlist' and ctx is not None:
                 h = ctx.heap[v.oid]
                 n = model.eval(h.fields['len'].t, model_completion=True).as_long()
